@@ -9,7 +9,7 @@
    re-checked by the correspondence on every run).
    Exceptions are explicit values: [Err "<exception type name>"].
    No proofs in this file. *)
-From Coq Require Import List Bool Arith ZArith QArith Qcanon Qround String.
+From Coq Require Import String List Bool Arith ZArith QArith Qcanon Qround.
 From AL Require Import Base.CaseLib.
 Import ListNotations.
 Open Scope Qc_scope.
